@@ -88,6 +88,17 @@ def eval_pred(pred, vals):
     except Exception as e:   # a predicate must never crash the check: report as failure of the predicate
         return 'predicate %s raised %s: %s' % (name, type(e).__name__, e)
 
+# LLVM rewrites powf(x, 2.0) with a compile-time-constant exponent into x*x in optimised builds
+# (electric_field's `power = scalar(2.0)` after inlining); glibc's pow is within 1 ulp of that.
+# The model follows the unoptimised build (a recorded pow call); the optimised build may differ
+# by an ulp in the magnitude of exactly these results.
+PROFILE_TOLERANT_OPS = {'TEField': 2}
+def profile_tolerated(op, a, b):
+    n = PROFILE_TOLERANT_OPS.get(op)
+    if n is None or a[0] != 'G' or b[0] != 'G':
+        return False
+    return a[2:] == b[2:] and abs(a[1] - b[1]) <= n
+
 class Result:
     pass
 
@@ -180,8 +191,10 @@ def run_check(spec, tier, seed, budget_scale=1.0, out=sys.stdout):
     skipped = 0
     for c in cases:
         if dbg[c.cid][0] != rel[c.cid][0]:
-            k = next(i for i, (a, b) in enumerate(zip(dbg[c.cid][0], rel[c.cid][0])) if a != b)
-            disagree.append((c, k, 'debug and release builds differ', ser_reg(rel[c.cid][0][k])))
+            ks = [i for i, (a, b) in enumerate(zip(dbg[c.cid][0], rel[c.cid][0])) if a != b and not profile_tolerated(c.prog.ins[i][0], a, b)]
+            if ks:
+                k = ks[0]
+                disagree.append((c, k, 'debug and release builds differ', ser_reg(rel[c.cid][0][k])))
         r = res.get(c.cid)
         if r is None:
             if not errs:
